@@ -694,7 +694,7 @@ class Gen:
         body = self.stmt(env, r.randint(2, self.cfg.stmt_depth + 1))
         extra = []
         if self.cfg.mode == 'deep':
-            depth = r.choice([50, 400, 2000, 8000])
+            depth = r.choice([50, 400, 2000, 8000, 12000])
             v = env.local_assign[0] if env.local_assign else None
             call = ('call', 'deep', [lit(depth), lit(0)])
             extra.append(('syscall', self.callee('put'), [call, lit(0)]))
